@@ -68,14 +68,15 @@ theorem dns_find (c : Call) (mk : Ns → Rule) (p : Pkt) (mark : Option String)
     rw [hm]
     simp [h1, h2, ha]
 
-/-- The chain `sshuttle-PORT` of the nat method, for a packet whose destination is not local:
+/-- The chain `sshuttle-PORT` of the nat method (local or non-local destination alike: the
+`--dst-type LOCAL` RETURN is the LAST rule of the chain, so it only ends a walk that would have
+fallen off the chain anyway):
 DNS to a listed name server is redirected to the DNS port; otherwise a TCP packet whose most
 specific entry is an include is redirected to the proxy port; everything else falls through. -/
 theorem natChain_verdict (c : Call) (call : ChainName → Option String → Res) (p : Pkt)
     (mark : Option String)
     (hfam : c.family = AF_INET ∨ c.family = AF_INET6) (hp : p.fam6 = isV6 c.family)
-    (hwf : ∀ s ∈ c.subnets, Spec.WfEntry s ∧ s.fam = c.family)
-    (hnl : p.dstLocal = false) :
+    (hwf : ∀ s ∈ c.subnets, Spec.WfEntry s ∧ s.fam = c.family) :
     (walkList call p (natChainRules c) mark).verdict =
       if Spec.isDnsToNs c.nslist p then .divert c.dnsport
       else if p.proto == .tcp && Spec.mostSpecificIsInclude c.subnets p then .divert c.port
@@ -130,7 +131,7 @@ theorem natChain_verdict (c : Call) (call : ChainName → Option String → Res)
         rw [hq s (mem_sortDesc.mp hs), hpr]
         simp
       rw [hnone]
-      simp [localReturn, matchRule, hnl, Res.verdict]
+      cases hl : p.dstLocal <;> simp [localReturn, matchRule, hl, termRes, Res.verdict]
     | tcp =>
       have hq' : ∀ s ∈ c.subnets,
           ((fun r => matchRule r.m p mark) ∘ natSubnetRule (isV6 c.family) c.port) s
@@ -142,7 +143,7 @@ theorem natChain_verdict (c : Call) (call : ChainName → Option String → Res)
       | none =>
         rw [hfs] at hspec
         simp only at hspec
-        simp [hspec, localReturn, matchRule, hnl, Res.verdict]
+        cases hl : p.dstLocal <;> simp [hspec, localReturn, matchRule, hl, termRes, Res.verdict]
       | some s0 =>
         rw [hfs] at hspec
         simp only at hspec
@@ -209,8 +210,7 @@ def natChainExpected (c : Call) (p : Pkt) : Verdict :=
 theorem nat_builtin (c : Call) (p : Pkt) (mark : Option String) (b : ChainName)
     (hb : (load (natCmds c)).get ⟨.ipt (isV6 c.family) .nat, b⟩ = [natJumpRule c])
     (hfam : c.family = AF_INET ∨ c.family = AF_INET6) (hp : p.fam6 = isV6 c.family)
-    (hwf : ∀ s ∈ c.subnets, Spec.WfEntry s ∧ s.fam = c.family)
-    (hnl : p.dstLocal = false) :
+    (hwf : ∀ s ∈ c.subnets, Spec.WfEntry s ∧ s.fam = c.family) :
     (walkChain (load (natCmds c)) (.ipt (isV6 c.family) .nat) p walkFuel b mark).verdict =
       if matchRule (natJumpRule c).m p mark then natChainExpected c p else .untouched := by
   show (walkChain _ _ _ (3 + 1) _ _).verdict = _
@@ -218,18 +218,18 @@ theorem nat_builtin (c : Call) (p : Pkt) (mark : Option String) (b : ChainName)
   unfold natJumpRule
   rw [walkList_jump_single]
   simp only
-  rw [walkChain_succ, nat_load_chain, natChain_verdict c _ p mark hfam hp hwf hnl]
+  rw [walkChain_succ, nat_load_chain, natChain_verdict c _ p mark hfam hp hwf]
   rfl
 
 theorem nat_verdict (c : Call) (p : Pkt)
     (hfam : c.family = AF_INET ∨ c.family = AF_INET6) (hp : p.fam6 = isV6 c.family)
     (hwf : ∀ s ∈ c.subnets, Spec.WfEntry s ∧ s.fam = c.family)
-    (hnl : p.dstLocal = false) (hmark : p.mark ≠ some (toString c.port)) :
+    (hmark : p.mark ≠ some (toString c.port)) :
     verdictNat (load (natCmds c)) p = Spec.expectedCall c true false p := by
   have hm2 : ¬ p.mark = some (Nat.repr c.port) := hmark
   unfold verdictNat
-  rw [hp, nat_builtin c p _ _ (nat_load_output c) hfam hp hwf hnl,
-    nat_builtin c p _ _ (nat_load_prerouting c) hfam hp hwf hnl]
+  rw [hp, nat_builtin c p _ _ (nat_load_output c) hfam hp hwf,
+    nat_builtin c p _ _ (nat_load_prerouting c) hfam hp hwf]
   rw [show walkFuel = 3 + 1 from rfl, walkChain_succ, nat_load_mangle]
   unfold Spec.expectedCall natChainExpected
   cases hu : c.user <;> cases hg : c.group <;> cases hl : p.loc <;>
